@@ -10,6 +10,12 @@
         //@ end
         //@ fn exp:zvt_builder | impl Encoding<u8> for Default | decode | mod=encoding props=C02
         //@ end
+        open spec fn self_delimiting() -> bool { true }
+        proof fn law_dec_bounds(b: Seq<u8>) {}
+        //@ tag enc.law_dec_frame.le.u8 C14
+        proof fn law_dec_frame(b: Seq<u8>, s: Seq<u8>) {
+            assert((b + s).subrange(0, 1) =~= b.subrange(0, 1));
+        }
         //@ tag enc.law_inverse.le.u8 C17 C01
         proof fn law_inverse(v: &u8) {
             lemma_le1_inv(*v as nat);
@@ -28,6 +34,12 @@
         //@ end
         //@ fn exp:zvt_builder | impl Encoding<u16> for Default | decode | mod=encoding props=C02
         //@ end
+        open spec fn self_delimiting() -> bool { true }
+        proof fn law_dec_bounds(b: Seq<u8>) {}
+        //@ tag enc.law_dec_frame.le.u16 C14
+        proof fn law_dec_frame(b: Seq<u8>, s: Seq<u8>) {
+            assert((b + s).subrange(0, 2) =~= b.subrange(0, 2));
+        }
         //@ tag enc.law_inverse.le.u16 C17 C01
         proof fn law_inverse(v: &u16) {
             lemma_le2_inv(*v as nat);
@@ -46,6 +58,12 @@
         //@ end
         //@ fn exp:zvt_builder | impl Encoding<u32> for Default | decode | mod=encoding props=C02
         //@ end
+        open spec fn self_delimiting() -> bool { true }
+        proof fn law_dec_bounds(b: Seq<u8>) {}
+        //@ tag enc.law_dec_frame.le.u32 C14
+        proof fn law_dec_frame(b: Seq<u8>, s: Seq<u8>) {
+            assert((b + s).subrange(0, 4) =~= b.subrange(0, 4));
+        }
         //@ tag enc.law_inverse.le.u32 C17 C01
         proof fn law_inverse(v: &u32) {
             lemma_le4_inv(*v as nat);
@@ -64,6 +82,12 @@
         //@ end
         //@ fn exp:zvt_builder | impl Encoding<u64> for Default | decode | mod=encoding props=C02
         //@ end
+        open spec fn self_delimiting() -> bool { true }
+        proof fn law_dec_bounds(b: Seq<u8>) {}
+        //@ tag enc.law_dec_frame.le.u64 C14
+        proof fn law_dec_frame(b: Seq<u8>, s: Seq<u8>) {
+            assert((b + s).subrange(0, 8) =~= b.subrange(0, 8));
+        }
         //@ tag enc.law_inverse.le.u64 C17 C01
         proof fn law_inverse(v: &u64) {
             lemma_le8_inv(*v as nat);
@@ -82,6 +106,12 @@
         //@ end
         //@ fn exp:zvt_builder | impl Encoding<usize> for Default | decode | mod=encoding props=C02
         //@ end
+        open spec fn self_delimiting() -> bool { true }
+        proof fn law_dec_bounds(b: Seq<u8>) {}
+        //@ tag enc.law_dec_frame.le.usize C14
+        proof fn law_dec_frame(b: Seq<u8>, s: Seq<u8>) {
+            assert((b + s).subrange(0, 8) =~= b.subrange(0, 8));
+        }
         //@ tag enc.law_inverse.le.usize C17 C01
         proof fn law_inverse(v: &usize) {
             lemma_le8_inv(*v as nat);
@@ -101,6 +131,12 @@
         //@ end
         //@ fn exp:zvt_builder | impl Encoding<u8> for BigEndian | decode | mod=encoding props=C02
         //@ end
+        open spec fn self_delimiting() -> bool { true }
+        proof fn law_dec_bounds(b: Seq<u8>) {}
+        //@ tag enc.law_dec_frame.be.u8 C14
+        proof fn law_dec_frame(b: Seq<u8>, s: Seq<u8>) {
+            assert((b + s).subrange(0, 1) =~= b.subrange(0, 1));
+        }
         //@ tag enc.law_inverse.be.u8 C17 C01
         proof fn law_inverse(v: &u8) {
             lemma_be1_inv(*v as nat);
@@ -119,6 +155,12 @@
         //@ end
         //@ fn exp:zvt_builder | impl Encoding<u16> for BigEndian | decode | mod=encoding props=C02
         //@ end
+        open spec fn self_delimiting() -> bool { true }
+        proof fn law_dec_bounds(b: Seq<u8>) {}
+        //@ tag enc.law_dec_frame.be.u16 C14
+        proof fn law_dec_frame(b: Seq<u8>, s: Seq<u8>) {
+            assert((b + s).subrange(0, 2) =~= b.subrange(0, 2));
+        }
         //@ tag enc.law_inverse.be.u16 C17 C01
         proof fn law_inverse(v: &u16) {
             lemma_be2_inv(*v as nat);
@@ -137,6 +179,12 @@
         //@ end
         //@ fn exp:zvt_builder | impl Encoding<u32> for BigEndian | decode | mod=encoding props=C02
         //@ end
+        open spec fn self_delimiting() -> bool { true }
+        proof fn law_dec_bounds(b: Seq<u8>) {}
+        //@ tag enc.law_dec_frame.be.u32 C14
+        proof fn law_dec_frame(b: Seq<u8>, s: Seq<u8>) {
+            assert((b + s).subrange(0, 4) =~= b.subrange(0, 4));
+        }
         //@ tag enc.law_inverse.be.u32 C17 C01
         proof fn law_inverse(v: &u32) {
             lemma_be4_inv(*v as nat);
@@ -155,6 +203,12 @@
         //@ end
         //@ fn exp:zvt_builder | impl Encoding<u64> for BigEndian | decode | mod=encoding props=C02
         //@ end
+        open spec fn self_delimiting() -> bool { true }
+        proof fn law_dec_bounds(b: Seq<u8>) {}
+        //@ tag enc.law_dec_frame.be.u64 C14
+        proof fn law_dec_frame(b: Seq<u8>, s: Seq<u8>) {
+            assert((b + s).subrange(0, 8) =~= b.subrange(0, 8));
+        }
         //@ tag enc.law_inverse.be.u64 C17 C01
         proof fn law_inverse(v: &u64) {
             lemma_be8_inv(*v as nat);
@@ -173,6 +227,12 @@
         //@ end
         //@ fn exp:zvt_builder | impl Encoding<usize> for BigEndian | decode | mod=encoding props=C02
         //@ end
+        open spec fn self_delimiting() -> bool { true }
+        proof fn law_dec_bounds(b: Seq<u8>) {}
+        //@ tag enc.law_dec_frame.be.usize C14
+        proof fn law_dec_frame(b: Seq<u8>, s: Seq<u8>) {
+            assert((b + s).subrange(0, 8) =~= b.subrange(0, 8));
+        }
         //@ tag enc.law_inverse.be.usize C17 C01
         proof fn law_inverse(v: &usize) {
             lemma_be8_inv(*v as nat);
